@@ -6,7 +6,7 @@ P=$1; DEMO=$2; DEST=$3; shift 3
 WT=/tmp/wt_$P; M=/tmp/mut_$P; LOG=$M/verify.log
 cd $WT || exit 2
 git checkout -q -- . ; git clean -fdq crates
-cp $M/demo/$DEMO $WT/$DEST/ || exit 2
+mkdir -p $WT/$DEST; cp $M/demo/$DEMO $WT/$DEST/ || exit 2
 {
 echo "== without patch: demo"; cargo test --offline "$@" 2>&1 | grep -E "^test result|FAILED|panicked" | head -5
 git apply $M/patch.diff || echo "APPLY FAILED"
